@@ -56,6 +56,14 @@ def cases(tier, seed):
         for k in range(2 if tier == "quick" else 6):
             out.append({"kind": "img", "cls": "large_or_elongated", "H": H, "W": W, "idx": idx, "seed": seed})
             idx += 1
+    # sides with a LARGE PRIME FACTOR (13, 17, 19, 23, 26, 29, 31): a transform on a padded "fast" length is a linear, not a periodic, convolution;
+    # every kernel kind is visited (the kernel index advances with idx)
+    prime = [(13, 10), (10, 13), (17, 7), (6, 19), (13, 13), (23, 4), (26, 5), (9, 11), (11, 7), (7, 22)] if tier == "quick" else \
+            [(13, 10), (10, 13), (17, 7), (6, 19), (13, 13), (23, 4), (26, 5), (9, 11), (11, 7), (7, 22), (29, 3), (4, 31), (19, 17), (38, 3), (14, 11), (11, 11)]
+    for (H, W) in prime:
+        for k in range(3 if tier == "quick" else 8):
+            out.append({"kind": "img", "cls": "side_with_large_prime_factor", "H": H, "W": W, "idx": idx, "seed": seed})
+            idx += 1
     # badly conditioned but invertible blurs (Gaussian as wide as the image): lambda = 0 must still undo them
     for (H, W) in ([(16, 16), (12, 16), (10, 14), (9, 9), (8, 12)] if tier == "quick" else [(16, 16), (12, 16), (10, 14), (9, 9), (20, 15), (11, 23), (18, 18)]):
         for k in range(2 if tier == "quick" else 6):
